@@ -228,7 +228,11 @@ RAISE_PROG = r'''
    :write-bad-data (fn [] (ev/write w2 123 to))
    :read-closed (fn [] (def [a b] (os/pipe)) (ev/close a) (ev/close b) (ev/read a 10 @"" to))
    :write-closed (fn [] (def [a b] (os/pipe)) (ev/close a) (ev/close b) (ev/write b "x" to))
-   :take-closed (fn [] (def c (ev/chan)) (ev/chan-close c) (ev/with-deadline to (ev/give c 1)))})
+   :take-closed (fn [] (def c (ev/chan)) (ev/chan-close c) (ev/with-deadline to (ev/give c 1)))
+   # waits refused because they are attempted inside a function that C code calls back (janet_call): the armed timer must die with them
+   :sleep-in-replace-callback (fn [] (string/replace "a" (fn [_] (ev/sleep to) "x") "a"))
+   :sleep-in-out-callback (fn [] (with-dyns [:out (fn [x] (ev/sleep to))] (print "x")))
+   :read-in-cmt-callback (fn [] (peg/match ~(cmt (<- 1) ,(fn [_] (ev/read r2 10 @"" to))) "a"))})
 (each opname [%s]
   (def raised (not (first (protect ((ops opname))))))
   (each bkind [:sleep :take :read]
@@ -325,13 +329,14 @@ def run(ctx):
 
     # rule 6: an operation with a timeout argument that raises without suspending leaves no live timer behind
     nraise = 6 if quick else 60
-    ALLOPS = [":read-busy", ":chunk-busy", ":read-bad-n", ":read-bad-buf", ":write-bad-data", ":read-closed", ":write-closed", ":take-closed"]
+    ALLOPS = [":read-busy", ":chunk-busy", ":read-bad-n", ":read-bad-buf", ":write-bad-data", ":read-closed", ":write-closed", ":take-closed",
+              ":sleep-in-replace-callback", ":sleep-in-out-callback", ":read-in-cmt-callback"]
 
     def raising(i):
         rng = random.Random(ctx.sub_seed("raise", i))
         to = rng.choice([0.02, 0.03, 0.05])
         bdur = to * 3 + 0.05
-        opsel = rng.sample(ALLOPS, 4)
+        opsel = rng.sample(ALLOPS, 5)
         script = RAISE_PROG % (repr(to), " ".join(opsel), repr(bdur), repr(bdur), repr(bdur))
         files = {"raise.janet": script}
         d = core.case_dir()
